@@ -2,7 +2,7 @@
 """Merges /tmp/learn_<prop>.json (output of `vcheck learn`) into known_findings.json; ill-formed-haystack groups collapse into one entry."""
 import json, sys
 prop = sys.argv[1]
-new = json.load(open('/tmp/learn_%s.json' % prop))
+new = json.load(open("/tmp/learn_%s.json" % prop)) or []
 k = json.load(open('/verif/known_findings.json'))
 ids = {f['id'] for f in k['findings']}
 added = 0
